@@ -1,6 +1,6 @@
 // @unit c15_settings property=C15 attach=verif-c15/src/lib.rs
-// @h c15_settings_crate_plain tier=both bounded=enumerated-literal-arguments
-// @h c15_settings_crate_renamed tier=both bounded=enumerated-literal-arguments
+// @h c15_settings_crate_plain tier=off bounded=enumerated-literal-arguments
+// @h c15_settings_crate_renamed tier=off bounded=enumerated-literal-arguments
 // @h c15_settings_flags tier=both bounded=enumerated-literal-arguments
 // @canary canary_c15_settings
 //
@@ -14,6 +14,10 @@
 //                                  schema's x-rust-type names), Never, renamed to `new`
 //   P6  struct builder == !--no-builder; every --additional-derive reaches the settings in
 //       order; --unknown-crates generate|allow|deny => that policy; absent => Generate
+//
+// NOT DECIDED: P5. Its two harnesses are kept with `tier=off`: reading a `CrateSpec` back out
+// of the B-tree (`crates.get(..)` then a match on the entry's fields) does not terminate in
+// CBMC within 20 minutes (the same was seen for C13's configured-crate cells).
 //
 // The settings are read through kani/c15_access.rs (pub accessors attached to typify-impl in
 // the scratch copy). All argument strings are literals (enumerated), flags are symbolic.
